@@ -634,6 +634,91 @@ fn concurrent_brackets(ctx: &Ctx, out: &mut Out, rng: &mut Rng) {
     }
 }
 
+/// The server's log sink stalls for longer than the radius while requests keep filling its
+/// batches (batch_size 1: every batch is full): whatever the worker is blocked in meanwhile, a
+/// response that is finally signed and sent must not carry a clock reading older than its radius
+/// ("the true time of signing lies within midpoint +/- radius").
+fn stalled_log_sink(ctx: &Ctx, out: &mut Out, rng: &mut Rng) {
+    use crate::procs::*;
+    let seed = rng.bytes(32);
+    let pk = RefKey::from_seed(&seed).public();
+    let mut cfg = SrvCfg::new(free_port(false), &seed);
+    cfg.num_workers = Some(1);
+    cfg.batch_size = Some(1);
+    cfg.tz = Some("UTC".into());
+    cfg.log_pipe = true;
+    let Ok(mut sp) = spawn_server(&ctx.bins, &cfg, &ctx.scratch, "c11sink", None) else {
+        out.inconclusive("spawn failed");
+        return;
+    };
+    if sp.wait_ready(&pk, Duration::from_secs(10)).is_err() {
+        out.inconclusive("server with a piped log sink not ready");
+        return;
+    }
+    std::thread::sleep(Duration::from_millis(100));
+    // the sink stalls; 300 requests from one socket, their replies collected as they come
+    sp.log_sink_open.store(false, std::sync::atomic::Ordering::Relaxed);
+    let sock = std::net::UdpSocket::bind("127.0.0.1:0").unwrap();
+    crate::inproc::set_rcvbuf(std::os::unix::io::AsRawFd::as_raw_fd(&sock), 1 << 20);
+    sock.set_read_timeout(Some(Duration::from_millis(50))).unwrap();
+    let addr: std::net::SocketAddr = format!("127.0.0.1:{}", sp.cfg.port).parse().unwrap();
+    let stall = Duration::from_millis(6_500);
+    let t_stall = std::time::Instant::now();
+    let mut pending: Vec<(Vec<u8>, Vec<u8>, Proto)> = Vec::new();
+    let mut sent = 0;
+    let mut buf = vec![0u8; 4096];
+    let mut resumed = false;
+    let (mut answered, mut stale) = (0u64, 0u64);
+    let mut worst = 0i64;
+    loop {
+        if sent < 120 && pending.len() < 40 {
+            let p = if sent % 2 == 0 { Proto::Classic } else { Proto::Ietf };
+            let (pkt, nonce) = make_request(rng, p, None);
+            let _ = sock.send_to(&pkt, addr);
+            pending.push((pkt, nonce, p));
+            sent += 1;
+        }
+        if !resumed && t_stall.elapsed() > stall {
+            sp.log_sink_open.store(true, std::sync::atomic::Ordering::Relaxed);
+            resumed = true;
+        }
+        if let Ok((n, _)) = sock.recv_from(&mut buf) {
+            let t_after = SystemTime::now();
+            if let Some(i) = pending.iter().position(|(pkt, nonce, p)| crate::refimpl::verify::verify_response(&crate::refimpl::verify::ReqView { proto: *p, packet: pkt, nonce: nonce.clone() }, &buf[..n], &pk, crate::refimpl::verify::Opts { strict: true }).is_ok()) {
+                let (pkt, nonce, p) = pending.remove(i);
+                let v = crate::refimpl::verify::verify_response(&crate::refimpl::verify::ReqView { proto: p, packet: &pkt, nonce }, &buf[..n], &pk, crate::refimpl::verify::Opts { strict: true }).unwrap();
+                answered += 1;
+                let unit = if p == Proto::Classic { 1_000_000i64 } else { 1 };
+                let age_units = floor_unit(t_after, p) as i64 - v.midp as i64;
+                let age_ms = age_units * 1000 / unit;
+                worst = worst.max(age_ms);
+                // the reply left the server no earlier than it was signed and no later than now
+                if age_ms > 5_000 + 1_500 {
+                    stale += 1;
+                }
+            }
+        }
+        if resumed && (pending.is_empty() && sent >= 120 || t_stall.elapsed() > stall + Duration::from_secs(6)) {
+            break;
+        }
+    }
+    out.case(fnv64(&seed) ^ 0x51a1, true);
+    out.obs("stalled_log_sink_runs", 1);
+    out.obs("stalled_log_sink_replies", answered as i64);
+    out.obs_max("stalled_log_sink_worst_reply_age_ms", worst);
+    if stale > 0 {
+        out.violation(
+            "C11 running-server midpoint-older-than-radius stalled-log-sink",
+            &format!("the server's log sink stalled for 6.5 s (batch_size 1): {} of {} replies arrived carrying a clock reading more than radius (5 s) + 1.5 s older than their arrival (worst {} ms)", stale, answered, worst),
+            json!({"kind":"stalled-log-sink"}),
+        );
+    }
+    sp.signal(libc::SIGTERM);
+    if sp.wait_exit(Duration::from_secs(5)).is_none() {
+        sp.kill();
+    }
+}
+
 pub fn run_c11(ctx: &Ctx, out: &mut Out) {
     let mut rng = ctx.rng("C11");
     crate::inproc::install_shard_logger(ctx.shard, out);
@@ -683,6 +768,9 @@ pub fn run_c11(ctx: &Ctx, out: &mut Out) {
     }
     if (2..4).contains(&ctx.shard) || (ctx.thorough && ctx.shard % 2 == 0) {
         concurrent_brackets(ctx, out, &mut rng);
+    }
+    if ctx.shard == 4 || (ctx.thorough && ctx.shard % 4 == 1) {
+        stalled_log_sink(ctx, out, &mut rng);
     }
     for k in 0..ctx.share(480, 32_000) {
         brackets(out, &mut rng, k);
